@@ -17,6 +17,8 @@ import (
 
 var algs = []string{"HS256", "HS384", "HS512", "ES256", "ES384", "ES512", "RS256", "RS384", "RS512", "PS256", "PS384", "PS512"}
 var strats = []string{"TINK", "CUSTOM", "IGNORED"}
+var boundaryIDs = []string{"00000000", "00000001", "000000ab", "0000abcd", "00abcdef", "00ffffff", "01000000", "7fffffff",
+	"80000000", "fbefbeff", "ffffffff"}
 
 var nasty = []string{"", "a", "issuer", "https://example.com/été", "quote\"back\\slash/", "tab\tnew\nline\r", "\u0001\u001f",
 	"  ", "\U0001F600 grin", "שלום", "é", "<script>&amp;</script>", "null", "7", " lead and trail ",
@@ -128,7 +130,10 @@ func randomCase(r *rand.Rand) (Case, string) {
 		e := KeyEntry{Alg: alg, Strat: strat, Status: status, Mat: mat}
 		switch strat {
 		case "TINK":
-			e.ID = fmt.Sprintf("%08x", r.Uint32()|1)
+			e.ID = fmt.Sprintf("%08x", r.Uint32())
+			if r.Intn(2) == 0 { // the boundaries of the kid encoding: leading zero octets, sign bit, '-' and '_' in base64url
+				e.ID = pick(r, boundaryIDs)
+			}
 			id, _ := strconv.ParseUint(e.ID, 16, 32)
 			e.Kid = b64.EncodeToString([]byte{byte(id >> 24), byte(id >> 16), byte(id >> 8), byte(id)})
 		case "CUSTOM":
